@@ -1026,7 +1026,7 @@ class _Flattener:
                     ref_type = "dimension"
 
                 absolute_ref = self.search_by_relative_path(
-                    orig_ref, self.groupp(orig_var), not resolve_dim_or_var
+                    orig_ref, self.group(orig_var), not resolve_dim_or_var
                 )
 
         # Reference is to be searched by proximity
@@ -1251,9 +1251,13 @@ class _Flattener:
 
         # Get variable or dimension
         if search_dim:
-            elt = current_group.dimensions[ref_split[-1]]
+            elt = current_group.dimensions.get(ref_split[-1])
         else:
-            elt = current_group.variables[ref_split[-1]]
+            elt = current_group.variables.get(ref_split[-1])
+
+        if elt is None:
+            # Did not find
+            return None
 
         # Get absolute reference
         return self.pathname(self.group(elt), self.name(elt))
